@@ -1,6 +1,7 @@
 /- The fact values the C03 theorems are proved for (and the oracle runs with). -/
 import EinoV.Model.C03
 import EinoV.Model.C03Loop
+import EinoV.Model.C03Cancel
 namespace EinoV.Expected.C03
 def facts : EinoV.C03.Facts :=
   { waitOneRefills := true, refillOnErrorPath := true, doneCap := 1, pushUnderLock := true,
@@ -9,4 +10,6 @@ def facts : EinoV.C03.Facts :=
     run loop collects with `waitAll` -/
 def loopFacts : EinoV.C03.LoopFacts :=
   { submitPreprocessesFirst := true, interruptPathWaitsAll := true }
+/-- `executor` registers the hand-off `defer` as its first statement -/
+def cancelFacts : EinoV.C03.CancelFacts := { executorDefersFirst := true }
 end EinoV.Expected.C03
